@@ -100,6 +100,19 @@ func SeededRand(seed uint64, salt byte) seededReader {
 	return seededReader{rand.NewChaCha8(k)}
 }
 
+// ServerConfigTickets is ServerConfig for a server that hands out session tickets (TLS session
+// resumption), all of them under one fixed key so that every connection of a run accepts them.
+func (cs *CertSet) ServerConfigTickets(kind int, seed uint64) *tls.Config {
+	cfg := cs.ServerConfig(kind, seed)
+	cfg.SessionTicketsDisabled = false
+	var key [32]byte
+	for i := range key {
+		key[i] = byte(i*7 + 1)
+	}
+	cfg.SetSessionTicketKeys([][32]byte{key})
+	return cfg
+}
+
 func (cs *CertSet) ServerConfig(kind int, seed uint64) *tls.Config {
 	return &tls.Config{
 		Certificates:           []tls.Certificate{cs.chains[kind]},
